@@ -23,5 +23,8 @@ def run(pid, tier, replay):
     if pid in ("C14",):
         from . import p_pipe
         return p_pipe.main(pid, tier, replay)
+    if pid == "C13":
+        from . import p_ctrt
+        return p_ctrt.main(pid, tier, replay)
     print("unknown or unclaimed property %s" % pid)
     return 2
